@@ -9,6 +9,7 @@ each set's allocation over its inverters) used for attribution in finding predic
 from __future__ import annotations
 
 import copy
+import math
 from typing import Any
 
 _installed = False
@@ -101,6 +102,36 @@ def run(case: dict[str, Any]) -> dict[str, Any]:
         "remaining": float(res.remaining_power),
         "stages": stages,
     }
+
+
+def enforced_bounds(case: dict[str, Any]) -> tuple[float, float, float, float]:
+    """(incl_lower, excl_lower, excl_upper, incl_upper) the real BatteryManager enforces on requests
+    (the bounds its _check_request compares against), computed by the code under test."""
+    from frequenz.sdk.microgrid._power_distributing._component_managers._battery_manager import \
+        BatteryManager
+
+    from . import batdata
+
+    b = BatteryManager._get_bounds(None, batdata.build_pairs(case))  # type: ignore[arg-type]
+    return (float(b.inclusion_lower), float(b.exclusion_lower), float(b.exclusion_upper), float(b.inclusion_upper))
+
+
+def band_requests(case: dict[str, Any]) -> list[float]:
+    """Requests the distributor's enforced exclusion bound admits although the pool-advertised one
+    (harness model) does not. Empty when enforced and advertised exclusion bounds agree."""
+    from . import batdata
+
+    _, e_el, e_eu, _ = enforced_bounds(case)
+    _, a_el, a_eu, _ = batdata.advertised(case)
+    up = case["power"] > 0
+    lo, hi = (e_eu, a_eu) if up else (-e_el, -a_el)
+    if not (math.isfinite(lo) and math.isfinite(hi)) or lo < 0 or not lo < hi - 1e-6 * max(1.0, hi):
+        return []
+    u = (abs(case["power"]) * 0.6180339887) % 1.0
+    mags = [lo + u * (hi - lo)]
+    if lo > 1e-6:
+        mags.append(lo)
+    return [m if up else -m for m in mags if m > 1e-6]
 
 
 def stage_report(case: dict[str, Any], out: dict[str, Any]) -> dict[str, Any]:
